@@ -48,7 +48,40 @@ type c12World struct {
 	mounts []*c12Mount
 	log    []string
 	nwrite int
+	page   *c12Page // what the recording backend is told to list with the PAGINATED listing inside the next handler
 }
+
+// c12Page: a paginated listing the backend performs on the storage view it was handed (req.Storage.ListPage), with a
+// client-chosen prefix, cursor and limit, next to the plain listing of the same prefix.
+type c12Page struct {
+	prefix, after string
+	limit         int
+	ran           bool
+	names         []string
+	err           error
+	plain         []string
+	plainErr      error
+}
+
+func (w *c12World) pageHook(stage string, ctx context.Context, req *logical.Request) {
+	pg := w.page
+	if stage != "handle" || pg == nil || pg.ran || req.Path != "raw" {
+		return
+	}
+	pg.ran = true
+	pg.names, pg.err = req.Storage.ListPage(ctx, pg.prefix, pg.after, pg.limit)
+	pg.plain, pg.plainErr = req.Storage.List(ctx, pg.prefix)
+}
+
+// c12StorageErr is a failed storage call; cause may be context.DeadlineExceeded / context.Canceled, as returned by
+// storage engines with per-call deadlines.
+type c12StorageErr struct {
+	what  string
+	cause error
+}
+
+func (e *c12StorageErr) Error() string { return "verif: injected storage fault (" + e.what + ")" }
+func (e *c12StorageErr) Unwrap() error { return e.cause }
 
 func (w *c12World) logf(f string, a ...any) { w.log = append(w.log, fmt.Sprintf(f, a...)) }
 
@@ -69,6 +102,7 @@ func newC12World(t *testing.T, rt *rapid.T) *c12World {
 		logical: map[string]logical.Factory{"recbe": hub.factory("recbe", logical.TypeLogical)}})
 	hub.physSeq = tc.rec.Seq
 	w := &c12World{t: t, tc: tc, hub: hub}
+	hub.hook = w.pageHook
 	w.nss = append(w.nss, &c12NS{path: "", ns: namespace.RootNamespace, token: tc.root})
 	mk := func(path string, sealable bool) {
 		parentPath := path[:strings.LastIndex(strings.TrimSuffix(path, "/"), "/")+1]
@@ -136,6 +170,8 @@ func newC12World(t *testing.T, rt *rapid.T) *c12World {
 			if m.physPfx == "" || !strings.HasPrefix(m.physPfx, n.physPfx) {
 				t.Fatalf("harness: cannot learn storage prefix of mount %s%s (got %q, namespace prefix %q)", n.path, p, m.physPfx, n.physPfx)
 			}
+			// a key name that exists in this mount only
+			tc.mustOK(tc.doCtx(w.ctx(n), &logical.Request{Operation: logical.UpdateOperation, Path: fmt.Sprintf("%skv/only-m%d", p, m.id), ClientToken: tc.root, Data: map[string]any{"v": "only"}}), "unique key "+n.path+p)
 			w.mounts = append(w.mounts, m)
 		}
 		if n.path != "" {
@@ -188,7 +224,7 @@ var c12HostileKeys = []string{"k", "k2", "../x", "a/../../b", "..", "../../sys/t
 func isDescendantOrSelf(child, parent string) bool { return strings.HasPrefix(child, parent) }
 
 func TestVerif_C12_Confinement(t *testing.T) {
-	rec := verifx.NewRecorder("C12", "confinement", "a core with namespaces a/, optionally a/b/, and a separately sealed namespace s/; a recording backend mounted twice per namespace (and at a nested path in the root); a broad-policy token and a child token per namespace; actions: backend requests whose storage key is client-controlled (hostile keys: '..', absolute, other mounts' prefixes, NUL, empty, unicode) in every operation, with every namespace's token in every namespace, namespace by context or path prefix; cubbyhole writes and reads by every other token; seal/unseal of s/; restart of the server on the same storage; remount of a mount (internal call) and sys/remount called inside a namespace with that namespace's own token and a body destination naming itself, a descendant or - with '..', './..', an absolute path - a namespace outside its subtree (no foreign namespace's mount table may change); oracle: every physical key touched by the goroutine running a backend handler lies under that mount's own storage prefix; reads never return a value written through another mount; a token works only in its own namespace and below; cubbyhole values reach only their writer; a sealed namespace serves nothing and no storage operation falls under its prefix; non-trivial = a hostile key or a cross-namespace / cross-token attempt that reached routing")
+	rec := verifx.NewRecorder("C12", "confinement", "a core with namespaces a/, optionally a/b/, and a separately sealed namespace s/; a recording backend mounted twice per namespace (and at a nested path in the root); a broad-policy token and a child token per namespace; actions: backend requests whose storage key is client-controlled (hostile keys: '..', absolute, other mounts' prefixes, NUL, empty, unicode) in every operation, with every namespace's token in every namespace, namespace by context or path prefix; cubbyhole writes and reads by every other token; seal/unseal of s/; restart of the server on the same storage; remount of a mount (internal call) and sys/remount called inside a namespace with that namespace's own token and a body destination naming itself, a descendant or - with '..', './..', an absolute path - a namespace outside its subtree (no foreign namespace's mount table may change); paginated listings (req.Storage.ListPage) by the backend with client-chosen prefix / cursor / limit ('..' prefixes naming another mount's or namespace's storage, hostile cursors); a custom-id token's cubbyhole, its revocation during which the n-th storage operation (below its cubbyhole directory, or any) fails once with a plain error or one wrapping context.DeadlineExceeded / context.Canceled, then the same id issued again (no old data readable or listable; nothing left in storage after a revocation reported successful); oracle: every physical key touched by the goroutine running a backend handler lies under that mount's own storage prefix; reads never return a value written through another mount; a token works only in its own namespace and below; cubbyhole values reach only their writer; a sealed namespace serves nothing and no storage operation falls under its prefix; non-trivial = a hostile key or a cross-namespace / cross-token attempt that reached routing")
 	defer rec.Flush()
 	rapid.Check(t, func(rt *rapid.T) {
 		defer recoverWedged(rec)
@@ -199,6 +235,7 @@ func TestVerif_C12_Confinement(t *testing.T) {
 		restarts := 0
 		hostileN, crossNS, cubbyN, sealedN := 0, 0, 0, 0
 		lateShares := 0
+		pagedN, faultedRevokes := 0, 0
 		fail := func(sig, msg string) {
 			rec.Violation(rt, sig, map[string]any{"history": w.log}, "%s; history=%v", msg, w.log)
 		}
@@ -343,40 +380,223 @@ func TestVerif_C12_Confinement(t *testing.T) {
 				}
 				nontrivial = true
 			},
+			// The backend lists its storage with the PAGINATED listing (req.Storage.ListPage), prefix, cursor and limit
+			// dictated by the client: prefixes with '..' segments that name another mount's storage (sibling uuid, climb to
+			// the top and down into another namespace), absolute-looking prefixes, hostile cursors. The view handed to the
+			// backend is the mount's chroot for this call like for the other four.
+			"paginated-listing": func(rt *rapid.T) {
+				var cands []*c12Mount
+				for _, m := range w.mounts {
+					if !m.ns.sealed {
+						cands = append(cands, m)
+					}
+				}
+				if len(cands) == 0 {
+					rt.Skip("no mount")
+				}
+				m := cands[fairIndex(rt, "mount", len(cands))]
+				other := w.mounts[fairIndex(rt, "otherMount", len(w.mounts))]
+				seg := func(pfx string) string { // last path segment of a storage prefix: the mount's uuid
+					f := strings.Split(strings.TrimSuffix(pfx, "/"), "/")
+					return f[len(f)-1]
+				}
+				ups := strings.Repeat("../", strings.Count(m.physPfx, "/"))
+				prefixes := []string{"", "k/", "../" + seg(other.physPfx) + "/", ups + other.physPfx, "x/../../" + seg(other.physPfx) + "/", "../", "../../", other.physPfx, "..", "./", "../" + seg(other.physPfx) + "/only-m"}
+				afters := []string{"", "", "k", "..", "../", "../" + seg(other.physPfx) + "/", "\x00", "zzz", "__probe"}
+				limits := []int{-1, 0, 1, 2, 100}
+				pg := &c12Page{prefix: prefixes[fairIndex(rt, "prefix", len(prefixes))], after: afters[fairIndex(rt, "after", len(afters))], limit: limits[fairIndex(rt, "limit", len(limits))]}
+				w.page = pg
+				callsBefore := len(w.hub.handlerCalls())
+				seq0 := tc.rec.Seq()
+				res := tc.doCtx(w.ctx(m.ns), &logical.Request{Operation: logical.ListOperation, Path: m.path + "raw", ClientToken: tc.root, Data: map[string]any{"key": "k/"}})
+				w.page = nil
+				calls := w.hub.handlerCalls()[callsBefore:]
+				desc := fmt.Sprintf("paginated listing in %s%s prefix=%q after=%q limit=%d (other mount %s%s) -> %v err=%v / plain %v err=%v; request %v", m.ns.path, m.path, pg.prefix, pg.after, pg.limit, other.ns.path, other.path, pg.names, pg.err, pg.plain, pg.plainErr, res)
+				w.logf("%s", desc)
+				if !pg.ran {
+					t.Fatalf("harness: the backend of %s%s was not invoked: %s", m.ns.path, m.path, desc)
+				}
+				pagedN++
+				if strings.Contains(pg.prefix, "..") || strings.Contains(pg.after, "..") || pg.prefix == other.physPfx {
+					hostileN++
+					nontrivial = true
+				}
+				for _, c := range calls {
+					for _, o := range tc.rec.OpsSince(seq0) {
+						if o.G != c.G || o.Seq <= c.Enter || o.Seq > c.Exit {
+							continue
+						}
+						if strings.Contains("/"+o.Key+"/", "/../") {
+							fail("relative-key-reached-storage", fmt.Sprintf("handler of mount %s%s sent %s with the relative physical key %q to storage: %s", m.ns.path, m.path, o.Kind, o.Key, desc))
+						}
+						if !strings.HasPrefix(o.Key, m.physPfx) && o.Kind != "begintx" && o.Kind != "beginrotx" && o.Kind != "commit" && o.Kind != "rollback" {
+							fail("backend-touched-storage-outside-its-mount", fmt.Sprintf("handler of mount %s%s performed %s on physical key %q outside its prefix %q: %s", m.ns.path, m.path, o.Kind, o.Key, m.physPfx, desc))
+						}
+					}
+				}
+				if pg.err == nil {
+					// what the view shows page-wise is part of what it shows at all, and never a name only another mount holds
+					for _, o := range w.mounts {
+						for _, nm := range pg.names {
+							if o != m && strings.Contains(nm, fmt.Sprintf("only-m%d", o.id)) {
+								fail("paginated-listing-shows-other-mounts-keys", fmt.Sprintf("the paginated listing of mount %s%s shows %q, a key of mount %s%s: %s", m.ns.path, m.path, nm, o.ns.path, o.path, desc))
+							}
+						}
+					}
+					if pg.plainErr != nil && strings.Contains("/"+pg.prefix+"/", "/../") {
+						fail("paginated-listing-accepts-prefix-refused-elsewhere", fmt.Sprintf("the view of mount %s%s refuses the prefix for a plain listing (%v) and serves it paginated: %s", m.ns.path, m.path, pg.plainErr, desc))
+					} else if pg.plainErr == nil {
+						have := map[string]bool{}
+						for _, nm := range pg.plain {
+							have[nm] = true
+						}
+						for _, nm := range pg.names {
+							if !have[nm] {
+								fail("paginated-listing-shows-names-the-mount-does-not-hold", fmt.Sprintf("the paginated listing of mount %s%s shows %q which the plain listing of the same prefix does not: %s", m.ns.path, m.path, nm, desc))
+							}
+						}
+					}
+				}
+			},
 			// a token with an operator-chosen id writes to its cubbyhole and is revoked; a new token created later with
 			// the same id is a different token: it must not see the old data
 			"cubbyhole-after-token-id-reuse": func(rt *rapid.T) {
 				w.nwrite++
 				id := fmt.Sprintf("c12custom%d", w.nwrite)
-				mkTok := func() string {
+				mkTok := func() (string, rr) {
 					r := tc.req(logical.UpdateOperation, "auth/token/create", tc.root, map[string]any{"id": id, "policies": []string{"all", "default"}, "ttl": "1h"})
 					if !r.ok() || r.resp == nil || r.resp.Auth == nil {
-						t.Fatalf("harness: token with custom id: %v", r)
+						return "", r
 					}
-					return r.resp.Auth.ClientToken
+					return r.resp.Auth.ClientToken, r
 				}
-				tok := mkTok()
-				marker := fmt.Sprintf("CUBBY-%d", w.nwrite)
-				if r := tc.req(logical.UpdateOperation, "cubbyhole/c", tok, map[string]any{"v": marker}); !r.ok() {
-					fail("cubbyhole-write-failed", fmt.Sprintf("cubbyhole write with a live custom-id token failed: %v", r))
+				tok, cr := mkTok()
+				if tok == "" {
+					t.Fatalf("harness: token with custom id: %v", cr)
 				}
+				// one to three entries, one of them nested; the physical keys they land on are learnt from the op log
+				names := []string{"c", "d/e", "f"}[:1+fairIndex(rt, "entries", 3)]
+				markers := map[string]string{}
+				var physKeys []string
+				for _, nm := range names {
+					w.nwrite++
+					markers[nm] = fmt.Sprintf("CUBBY-%d", w.nwrite)
+					seq := tc.rec.Seq()
+					if r := tc.req(logical.UpdateOperation, "cubbyhole/"+nm, tok, map[string]any{"v": markers[nm]}); !r.ok() {
+						fail("cubbyhole-write-failed", fmt.Sprintf("cubbyhole write with a live custom-id token failed: %v", r))
+					}
+					for _, o := range tc.rec.OpsSince(seq) {
+						if o.Kind == "put" && strings.HasSuffix(o.Key, "/"+nm) {
+							physKeys = append(physKeys, o.Key)
+						}
+					}
+				}
+				if len(physKeys) != len(names) {
+					t.Fatalf("harness: cannot learn the storage keys of the cubbyhole entries: %v", physKeys)
+				}
+				cubbyDir := strings.TrimSuffix(physKeys[0], "c")
 				how := []string{"auth/token/revoke", "auth/token/revoke-self", "auth/token/revoke-orphan"}[fairIndex(rt, "revokeHow", 3)]
+				// fault point: during the revocation the n-th storage operation below the token's cubbyhole directory (or
+				// the n-th storage operation at all) fails once - with a plain error, or with one that wraps
+				// context.DeadlineExceeded / context.Canceled like a storage engine with per-call deadlines; storage is
+				// healthy again afterwards
+				faultKind := []string{"none", "plain", "deadline", "canceled", "deadline", "canceled"}[fairIndex(rt, "fault", 6)]
+				faultScope := []string{"cubbyhole", "cubbyhole", "any"}[fairIndex(rt, "faultScope", 3)]
+				faultN := 1 + fairIndex(rt, "faultNth", 6)
+				var fired func() *verifx.Op
+				if faultKind != "none" {
+					var ferr error
+					switch faultKind {
+					case "plain":
+						ferr = &c12StorageErr{what: "i/o error"}
+					case "deadline":
+						ferr = &c12StorageErr{what: "call timed out", cause: context.DeadlineExceeded}
+					case "canceled":
+						ferr = &c12StorageErr{what: "call cancelled", cause: context.Canceled}
+					}
+					var f func(o *verifx.Op) error
+					f, fired = verifx.FailNth(func(o *verifx.Op) bool {
+						if faultScope == "cubbyhole" {
+							return strings.HasPrefix(o.Key, cubbyDir)
+						}
+						return o.Kind != "commit" && o.Kind != "rollback"
+					}, faultN)
+					tc.rec.SetFault(func(o *verifx.Op) error {
+						if f(o) != nil {
+							return ferr
+						}
+						return nil
+					})
+				}
 				var r rr
 				if how == "auth/token/revoke-self" {
 					r = tc.req(logical.UpdateOperation, how, tok, nil)
 				} else {
 					r = tc.req(logical.UpdateOperation, how, tc.root, map[string]any{"token": tok})
 				}
-				if !r.ok() {
+				tc.rec.SetFault(nil)
+				hit := ""
+				if fired != nil {
+					if o := fired(); o != nil {
+						hit = o.Kind + " " + o.Key
+						faultedRevokes++
+					}
+				}
+				w.logf("custom-id token %s: %d cubbyhole entries, %s with fault=%s scope=%s nth=%d (hit: %q) -> %v", id, len(names), how, faultKind, faultScope, faultN, hit, r)
+				if !r.ok() && faultKind == "none" {
 					t.Fatalf("harness: %s: %v", how, r)
 				}
-				tok2 := mkTok()
-				rr2 := tc.req(logical.ReadOperation, "cubbyhole/c", tok2, nil)
-				w.logf("custom-id token %s: cubbyhole write, %s, same id created again, read -> %v", id, how, rr2)
-				if rr2.resp != nil && rr2.resp.Data != nil {
-					if got, _ := rr2.resp.Data["v"].(string); got != "" {
-						fail("cubbyhole-survives-its-token", fmt.Sprintf("cubbyhole value %q written by a token that was revoked (%s) is readable with a new token created with the same id", got, how))
+				left := func() []string {
+					var out []string
+					for _, k := range physKeys {
+						if e, err := tc.rec.Inner.Get(context.Background(), k); err == nil && e != nil {
+							out = append(out, k)
+						}
 					}
+					return out
+				}
+				leftSig, leftMsg := "", ""
+				if r.ok() {
+					// the revocation was reported as done: the token is gone, and with it everything in its cubbyhole
+					// (reported after the re-issued id has been tried, which is the stronger evidence)
+					if l := left(); len(l) > 0 && !tc.tokenAlive(tok) {
+						leftSig, leftMsg = "cubbyhole-data-left-after-revocation:"+faultKind, fmt.Sprintf("%s of a custom-id token answered %v (storage fault %s at %q) and the token is gone, but its cubbyhole entries %v are still in storage", how, r, faultKind, hit, l)
+					}
+				} else {
+					// refused or failed half way: storage is healthy again, the revocation is repeated (by the API if the
+					// token is still visible there, else the way the expiration manager repeats it)
+					r2 := tc.req(logical.UpdateOperation, "auth/token/revoke-orphan", tc.root, map[string]any{"token": tok})
+					var ierr error
+					if !r2.ok() {
+						ierr = tc.c.tokenStore.revokeOrphan(tc.ctx, tok)
+					}
+					w.logf("revocation repeated -> %v / %v", r2, ierr)
+				}
+				tok2, cr2 := mkTok()
+				if tok2 == "" {
+					// the id is still taken (the first token is not gone): nothing to compare
+					w.logf("same id not issued again: %v", cr2)
+					if leftSig != "" {
+						fail(leftSig, leftMsg)
+					}
+					return
+				}
+				for _, nm := range names {
+					rr2 := tc.req(logical.ReadOperation, "cubbyhole/"+nm, tok2, nil)
+					w.logf("same id created again, read %s -> %v", nm, rr2)
+					if rr2.resp != nil && rr2.resp.Data != nil {
+						if got, _ := rr2.resp.Data["v"].(string); got != "" {
+							fail("cubbyhole-survives-its-token", fmt.Sprintf("cubbyhole value %q written by a token that was revoked (%s, storage fault %s at %q, answered %v) is readable with a new token created with the same id", got, how, faultKind, hit, r))
+						}
+					}
+				}
+				if lr := tc.req(logical.ListOperation, "cubbyhole/", tok2, nil); lr.resp != nil && lr.resp.Data != nil {
+					if ks, _ := lr.resp.Data["keys"].([]string); len(ks) > 0 {
+						fail("cubbyhole-survives-its-token", fmt.Sprintf("a new token created with the id of a revoked token (%s, storage fault %s at %q, answered %v) lists %v in its cubbyhole without having written anything", how, faultKind, hit, r, ks))
+					}
+				}
+				if leftSig != "" {
+					fail(leftSig, leftMsg)
 				}
 				tc.req(logical.UpdateOperation, "auth/token/revoke", tc.root, map[string]any{"token": tok2})
 				cubbyN++
@@ -833,5 +1053,7 @@ func TestVerif_C12_Confinement(t *testing.T) {
 		rec.Class("cubbyhole-cross-reads", int64(cubbyN))
 		rec.Class("requests-into-sealed-namespace", int64(sealedN))
 		rec.Class("late-key-share-after-seal", int64(lateShares))
+		rec.Class("paginated-listings", int64(pagedN))
+		rec.Class("revocations-with-storage-fault-hit", int64(faultedRevokes))
 	})
 }
